@@ -290,25 +290,34 @@ func VerifC14XMLEncodeTree() {
 	c1 := verifStrN("c1", 1, " ~")
 	c2 := verifStrN("c2", 1, " ~")
 	a, v := "a"+c1+"b", "x"+c2+"y"
-	shape := verifChoice("shape", 4)
+	shape := verifChoice("shape", 5)
+	// the names that mark attributes and text content are preferences (--xml-attribute-prefix, --xml-content-name); one
+	// may be a prefix of the other
+	ap := []string{"+@", "+", "@", "_"}[verifChoice("attributePrefix", 4)]
+	cn := []string{"+content", "#text"}[verifChoice("contentName", 2)]
 	var n *yaml.Node
 	var want *c14X
 	switch shape {
+	case 4: // attribute, text content and a child element on the same element, below the root
+		n = vMap(vStr("root"), vMap(vStr("el"), vMap(vStr(ap+"id"), vStr(a), vStr(cn), vStr(v), vStr("b"), vStr("c"))))
+		want = &c14X{name: "root", kids: []*c14X{{name: "el", attrs: [][2]string{{"id", a}}, text: v, kids: []*c14X{{name: "b", text: "c"}}}}}
 	case 0: // attribute + child text
-		n = vMap(vStr("root"), vMap(vStr("+@id"), vStr(a), vStr("child"), vStr(v)))
+		n = vMap(vStr("root"), vMap(vStr(ap+"id"), vStr(a), vStr("child"), vStr(v)))
 		want = &c14X{name: "root", attrs: [][2]string{{"id", a}}, kids: []*c14X{{name: "child", text: v}}}
 	case 1: // repeated children from a sequence
 		n = vMap(vStr("root"), vMap(vStr("item"), vSeq(vStr(v), vStr(a)), vStr("last"), vStr("z")))
 		want = &c14X{name: "root", kids: []*c14X{{name: "item", text: v}, {name: "item", text: a}, {name: "last", text: "z"}}}
 	case 2: // attribute and text content on the same element
-		n = vMap(vStr("root"), vMap(vStr("+@k"), vStr(a), vStr("+content"), vStr(v)))
+		n = vMap(vStr("root"), vMap(vStr(ap+"k"), vStr(a), vStr(cn), vStr(v)))
 		want = &c14X{name: "root", attrs: [][2]string{{"k", a}}, text: v}
 	default: // nesting, sequence of maps with attributes
-		n = vMap(vStr("root"), vMap(vStr("e"), vSeq(vMap(vStr("+@n"), vStr(a), vStr("t"), vStr(v)), vMap(vStr("t"), vStr("w")))))
+		n = vMap(vStr("root"), vMap(vStr("e"), vSeq(vMap(vStr(ap+"n"), vStr(a), vStr("t"), vStr(v)), vMap(vStr("t"), vStr("w")))))
 		want = &c14X{name: "root", kids: []*c14X{{name: "e", attrs: [][2]string{{"n", a}}, kids: []*c14X{{name: "t", text: v}}}, {name: "e", kids: []*c14X{{name: "t", text: "w"}}}}}
 	}
 	prefs := ConfiguredXMLPreferences.Copy()
 	prefs.Indent = 0
+	prefs.AttributePrefix = ap
+	prefs.ContentName = cn
 	var sb strings.Builder
 	w := bufio.NewWriter(c17Writer{&sb})
 	err := NewXMLEncoder(prefs).Encode(w, vDoc(n))
